@@ -109,6 +109,10 @@ func runC02(c *Ctx) {
 	sidePurityLint(c)
 	c.Rule("R02k", ruleTextMayWrapSymmetric, 5)
 	checkMayWrapSymmetric(c, "R02k")
+	c.Rule("R02l", ruleTextPartsAlias, 1)
+	checkPartsAlias(c, "R02l")
+	c.Rule("R02m", "SQLite default comparison is exact (same rule as C01/R01g): a default that differs only in the letter case of a string literal is a change", 2)
+	checkExactDefaultsRule(c, "R02m")
 
 	// ---- R02h
 	checkConditionalChanges(c)
